@@ -222,7 +222,7 @@ func eleVetoGrid(s *Shard, prop string, fn func(c *Case, cfg eleCfg)) {
 
 // eleHuge: values around 1e18 with thresholds of a few hundred (differences are exact, sums value+threshold are not).
 func eleHuge(s *Shard, prop string, fn func(c *Case, cfg eleCfg)) {
-	vals := []float64{1e18, 1e18 + 256, 1e18 + 512, 1e18 + 1024}
+	vals := []float64{1e18, 1e18 + 128, 1e18 + 256, 1e18 + 384, 1e18 + 512, 1e18 + 1024}
 	for _, n := range []int{2, 3} {
 		dims := make([]int, n)
 		for i := range dims {
@@ -232,14 +232,22 @@ func eleHuge(s *Shard, prop string, fn func(c *Case, cfg eleCfg)) {
 			if !s.Take() {
 				return
 			}
-			v := make([][]float64, n)
-			for i := range v {
-				v[i] = []float64{vals[idx[i]], float64(i)}
-			}
-			for _, t := range []thr{{Q: 100, P: 200, V: 250}, {Q: 128, P: 512, V: 1024}, {P: 256}} {
-				for _, typ := range []string{"gain", "cost"} {
-					cfg := eleCfg{N: n, Vals: v, Types: []string{typ, "gain"}, Thr: []thr{t, {}}, K: []float64{3, 1}, Dist: eleDists[0]}
-					fn(&Case{Prop: prop, Kind: "electre", Req: eleRequest(cfg)}, cfg)
+			for _, rev := range []bool{false, true} {
+				v := make([][]float64, n)
+				for i := range v {
+					v[i] = []float64{vals[idx[i]], float64(i)}
+					if rev {
+						v[i][1] = float64(n - i)
+					}
+				}
+				// thresholds that the float grid at 1e18 (step 128) rounds up, rounds down, or represents exactly
+				for _, t := range []thr{{Q: 100, P: 200, V: 250}, {Q: 100, P: 200}, {P: 200, V: 1000}, {Q: 60, P: 70}, {Q: 128, P: 512, V: 1024}, {P: 256}} {
+					for _, typ := range []string{"gain", "cost"} {
+						for _, k := range [][]float64{{3, 1}, {1, 3}, {1, 1}} {
+							cfg := eleCfg{N: n, Vals: v, Types: []string{typ, "gain"}, Thr: []thr{t, {}}, K: k, Dist: eleDists[0]}
+							fn(&Case{Prop: prop, Kind: "electre", Req: eleRequest(cfg)}, cfg)
+						}
+					}
 				}
 			}
 		})
